@@ -115,6 +115,7 @@ func (Engine) Run(t *tape.Tape, o eng.Opts) *eng.Result {
 	}
 	if sr.Capped {
 		viol("liveness.step-budget", "the run exceeded its step budget: a request after a panic did not finish", nil)
+		return res // the run was cut off: requests that never got their turn have no record to judge
 	}
 	name := func(hid int) string {
 		if hid < 0 || hid >= len(w.Sims) {
